@@ -26,7 +26,8 @@ FINISH = dict(
 
 N = -999
 CUBES = [((1, 1, 5), (10, 2, 4)), ((9, -2, 5), (3, 3, 4)), ((20, -1, 4), (30, -3, 4)), ((2, 3, 6), (8, -1, 5)), ((100, 2, 4), (7, 1, 6)), ((5, -3, 4), (40, -2, 5)),
-         ((3, 2, 8), (40, -1, 16))]       # 128 traces: every stored header array exactly one 512-byte page
+         ((3, 2, 8), (40, -1, 16)),       # 128 traces: every stored header array exactly one 512-byte page
+         ((-4, 2, 5), (6, -3, 4))]        # line number 0 inside both axes
 
 
 def axis(a):
